@@ -264,7 +264,7 @@ inductive J where
   | int (v : Int)              -- number_integer / number_unsigned (any size)
   | float
   | str (s : String)
-  | arr                        -- an array (content irrelevant to the object dispatch)
+  | arr (items : List J)       -- an array (a batch: items are dispatched one by one, nested arrays flattened)
   | obj (fields : List (String × J))
 deriving Repr
 
@@ -337,6 +337,100 @@ def mkError (id : Int) (errcode : Int) (message : String) : J :=
 /-- a C++ `int` -/
 def isInt32 (v : Int) : Prop := -2147483648 ≤ v ∧ v ≤ 2147483647
 instance (v : Int) : Decidable (isInt32 v) := by unfold isInt32; exact inferInstance
+
+/-! ### `Proto::onRecvJson` for any value: an object is dispatched; an array is walked depth first
+(explicit stack in the code, patches/C14-02), each non-array item dispatched like a message of its
+own; everything else is ignored. -/
+
+mutual
+def recvJson : J → List RMsg
+  | .obj fields => recvJsonObj (.obj fields)
+  | .arr items => recvItems items
+  | _ => []
+def recvItems : List J → List RMsg
+  | [] => []
+  | x :: xs => recvJson x ++ recvItems xs
+end
+
+/-! ### util::json::Get / GetField family (json.cpp), as found
+
+`none` = the getter returns `false` and does not write its output argument. nlohmann stores a
+non-negative integer literal below 2⁶⁴ as `number_unsigned`, a negative one down to −2⁶³ as
+`number_integer`, anything beyond as `number_float` (`J.int v` outside that range is a float). -/
+
+def inI64U64 (v : Int) : Bool := decide (-9223372036854775808 ≤ v ∧ v < 18446744073709551616)
+
+inductive GVal where
+  | b (v : Bool)
+  | u (v : Nat)          -- unsigned int
+  | i (v : Int)          -- int
+  | d (exact : Option Int)  -- double: `some v` when it comes from an integer literal (value v), `none` = some float
+  | s (v : String)
+deriving Repr, DecidableEq
+
+/-- `Get(js, bool&)` -/
+def J.getB : J → Option GVal
+  | .bool b => some (.b b)
+  | _ => none
+/-- `Get(js, unsigned int&)`: `is_number_unsigned()`, then `get<unsigned int>()` — **no range check**:
+values ≥ 2³² are truncated (as found; not used by jsonrpc) -/
+def J.getU : J → Option GVal
+  | .int v => if 0 ≤ v ∧ v < 18446744073709551616 then some (.u (v.toNat % 4294967296)) else none
+  | _ => none
+/-- `Get(js, int&)` with the range check of patches/C14-04 -/
+def J.getI : J → Option GVal
+  | .int v => if inI64U64 v then (respIdG true v).map .i else none
+  | _ => none
+/-- `Get(js, double&)`: any number -/
+def J.getD : J → Option GVal
+  | .int v => some (.d (if inI64U64 v then some v else none))
+  | .float => some (.d none)
+  | _ => none
+/-- `Get(js, std::string&)` -/
+def J.getS : J → Option GVal
+  | .str s => some (.s s)
+  | _ => none
+
+inductive GKind where | b | u | i | d | s
+deriving Repr, DecidableEq
+
+def J.get (k : GKind) (j : J) : Option GVal :=
+  match k with
+  | .b => j.getB | .u => j.getU | .i => j.getI | .d => j.getD | .s => j.getS
+
+/-- `GetField(js, key, out)`: `(return value, out afterwards)`; `old` is what `out` held before -/
+def getField (k : GKind) (j : J) (key : String) (old : GVal) : Bool × GVal :=
+  match (j.lookup key).bind (J.get k) with
+  | some v => (true, v)
+  | none => (false, old)
+
+/-- `Has<Kind>Field(js, key)`: o object, a array, b boolean, n number, f float, i integer, u unsigned, s string -/
+def hasField (kind : Char) (j : J) (key : String) : Bool :=
+  match j.lookup key with
+  | none => false
+  | some v =>
+    match kind, v with
+    | 'o', .obj _ => true
+    | 'a', .arr _ => true
+    | 'b', .bool _ => true
+    | 'n', .int _ => true
+    | 'n', .float => true
+    | 'f', .float => true
+    | 'f', .int x => !inI64U64 x
+    | 'i', .int x => inI64U64 x
+    | 'u', .int x => decide (0 ≤ x) && inI64U64 x
+    | 's', .str _ => true
+    | _, _ => false
+
+/-! ### request ids at the C++ width
+
+`int id_alloc_`; `id = ++id_alloc_` (rpc.cpp).  The model's counter is a `Nat`; `cppIncr` is the C++
+expression: at `INT_MAX` the increment is a signed overflow (undefined behaviour; `ub = true`),
+which g++ executes as the two's complement wrap. -/
+
+def kIntMax : Nat := 2147483647
+
+def cppIncr (cur : Int) : Int × Bool := (wrap32 (cur + 1), decide (cur = 2147483647))
 
 /-! ## Rpc
 
@@ -492,6 +586,16 @@ def Rpc.apiRespond (s : Rpc) (id code : Int) : Rpc × List REv :=
 /-- calls that dereference `proto_`: on a cleaned-up object they are refused (and flagged) -/
 def Rpc.guard (s : Rpc) (r : Rpc × List REv) : Rpc × List REv := if s.dead then (s, [.misuse]) else r
 
+/-- `request()` with a completion callback additionally executes `++id_alloc_`: with
+`id_alloc_ = INT_MAX` that is a signed overflow (undefined behaviour) — like the null `proto_`
+a precondition violation of the call: refused and flagged (`misuse`), never executed.  So the
+counter of every reachable state is a C++ `int` (`C14_id_width`). -/
+def Rpc.guardReq (s : Rpc) (r : Rpc × List REv) : Rpc × List REv :=
+  if s.dead ∨ kIntMax ≤ s.idAlloc then (s, [.misuse]) else r
+
+/-- test-only: `id_alloc_ = v` (see `JOp` in Spec.lean) -/
+def Rpc.jump (s : Rpc) (v : Nat) : Rpc := if v ≤ kIntMax then { s with idAlloc := v } else s
+
 /-- `Rpc::cleanup()` -/
 def Rpc.cleanup (s : Rpc) : Rpc :=
   { s with pending := [], ring := [], vn := 0, timerOn := false, services := [],
@@ -504,7 +608,7 @@ def Rpc.setService (s : Rpc) (m : Nat) (h : Option Nat) : Rpc :=
 /-- one act of a callback script; `k` handles a response arriving re-entrantly, `cur` is the id
 being served when the script is a service handler -/
 def doAct (k : Rpc → Int → Int → Rpc × List REv) (cur : Int) (s : Rpc) : Act → Rpc × List REv
-  | .request cb m => s.guard (s.request cb m)
+  | .request cb m => s.guardReq (s.request cb m)
   | .notify m => s.guard (s, [.sent 0 m])
   | .respond id code => s.apiRespond id code
   | .respondCur code => s.apiRespond cur code
@@ -613,7 +717,7 @@ inductive Op where
 deriving Repr, DecidableEq
 
 def step (s : Rpc) : Op → Rpc × List REv
-  | .request script m => s.guard (s.request script m)
+  | .request script m => s.guardReq (s.request script m)
   | .notify m => s.guard (s, [.sent 0 m])
   | .response id code => s.respond id code
   | .tick => s.tick
